@@ -3,9 +3,13 @@ import importlib
 import json
 import os
 import time
+import threading as _rt
 
 from vlib import common, findings, findings_sim
 from vlib.common import Acc, HarnessError
+
+
+THREAD_CAP = 1400     # parked threads of blocked/killed simulated tasks accumulate per shard process (pid_max is 32768)
 
 
 class Falsified(Exception):
@@ -113,7 +117,11 @@ def shard(prop, seed, n, tier="quick", collect=False, profile=None):
               phases=[Phase.generate, Phase.shrink])
     @given(strategies.cases(P))
     def test(case):
-        if state["first_fail_t"] is not None and time.monotonic() - state["first_fail_t"] > shrink_cap:
+        if state["first_fail_t"] is not None and (time.monotonic() - state["first_fail_t"] > shrink_cap
+                                                  or _rt.active_count() > THREAD_CAP):
+            return
+        if _rt.active_count() > THREAD_CAP:
+            state["skipped"] = state.get("skipped", 0) + 1
             return
         if hasattr(mod, "adjust"):
             case = mod.adjust(case)
@@ -169,6 +177,8 @@ def shard(prop, seed, n, tier="quick", collect=False, profile=None):
             raise HarnessError(f"hypothesis run failed without a recorded violation: {type(e).__name__}: {e}")
     if state["best"] is not None:
         acc.violations.append(state["best"][1])
+    if state.get("skipped"):
+        acc.count("cases_skipped_thread_cap", state["skipped"])
     return acc
 
 
@@ -207,7 +217,7 @@ def replay_job(prop, case):
     return acc
 
 
-def run_sim(prop, tier, seed, n_cases, per_proc=120, collect=False, profile=None, tag=None):
+def run_sim(prop, tier, seed, n_cases, per_proc=100, collect=False, profile=None, tag=None):
     from vlib.shards import run_jobs
     jobs = []
     k = 0
